@@ -32,7 +32,12 @@ def main():
     os.makedirs("/tmp/seedtest", exist_ok=True)
     subprocess.run(["git", "-C", "/repo", "worktree", "add", "-q", "--detach", wt, "HEAD"], check=True)
     try:
-        subprocess.run(["git", "-C", wt, "apply", os.path.join(d, "patch.diff")], check=True)
+        r = subprocess.run(["git", "-C", wt, "apply", os.path.join(d, "patch.diff")])
+        if r.returncode != 0:
+            # /repo has moved on since the seed was written (a later fix: commit touches the same lines): test it on the
+            # commit it was written against
+            subprocess.run(["git", "-C", wt, "checkout", "-q", "--detach", meta["base_commit"]], check=True)
+            subprocess.run(["git", "-C", wt, "apply", os.path.join(d, "patch.diff")], check=True)
         scratch = "/tmp/seedtest/out.%s" % os.path.basename(d)
         shutil.rmtree(scratch, ignore_errors=True)
         os.makedirs(scratch)
